@@ -16,6 +16,7 @@ import SJ.Drv.C16
 import SJ.Drv.C04
 import SJ.Drv.Typed
 import SJ.Drv.C07
+import SJ.Drv.C16x
 import SJ.Drv.StreamRaw
 /-!
 `sjdriver` — reads case lines `op args… => impl-observation` on stdin, runs the Lean model and the
@@ -46,6 +47,7 @@ def allHandlers : List (String × Handler) :=
     C04.handlers,
     Typed.handlers,
     C07.handlers,
+    C16x.handlers,
     StreamRaw.handlers,
   ]
 
